@@ -75,6 +75,50 @@ def run(v, tier, seed, replay=None):
             why = 'delivers %d objects, %d are wholly contained in completely stored containers' % (len(got), want_n) if len(got) != want_n else 'delivers an object that differs from the one written'
             v.violation('C08:prefix', 'file cut at byte %d of %d (level %d, container size %d) %s' % (r['cut'], len(c['mfile']), c['level'], c['cs'], why),
                         {'file_hex': r['data'].hex()[:8000], 'cut': r['cut'], 'write_case': c['line'][:2000], 'implementation': i[:600]})
+    # the same files with the INITIAL header — the statistics as open(out) writes them, before close() updates them
+    # (fileSize, uncompressedFileSize, objectCount, restorePointsOffset all zero): the logger crashed or is still writing
+    import random
+    rng = random.Random(seed * 13 + 5)
+    fulls = [r for r in res['r'] if r['mode'] == 'full' and id(r['of']) in full and all(e.startswith('W ok ') for e in r['of']['enc']) and len(r['of']['mfile']) > 176]
+    rng.shuffle(fulls)
+    icases = []
+    for r in fulls[:(6 if tier == 'quick' else 40)]:
+        c = r['of']
+        d = bytearray(c['mfile'])
+        d[16:36] = bytes(20)
+        d[72:80] = bytes(8)
+        L = len(d)
+        cuts = sorted(set([L, L - 1, L - 33, 145, 176, 177] + [rng.randrange(144, L) for _ in range(6 if tier == 'quick' else 30)]))
+        for k in cuts:
+            if 144 <= k <= L:
+                icases.append({'of': c, 'cut': k, 'data': bytes(d[:k])})
+    imo, iio = filerun.run_lines(['FR ' + x['data'].hex() for x in icases])
+    ichecked = 0
+    for x, m, i in zip(icases, imo, iio):
+        c = x['of']
+        if i == 'SKIPPED':
+            continue
+        ichecked += 1
+        encs = [bytes.fromhex(e.split(' ')[2]) for e in c['enc']]
+        if not filerun.fr_agree(m, i):
+            ndis += 1
+            v.violation('corr:C08:initial-header', 'model and implementation disagree on a file with the initial (all-zero statistics) header cut at byte %d of %d: %s | %s' % (x['cut'], len(c['mfile']), m[:120], i[:120]),
+                        {'file_hex': x['data'].hex()[:8000], 'model': m[:600], 'impl': i[:600]})
+            continue
+        if not i.startswith('FR ok'):
+            if not i.startswith('FR throws'):
+                bad += 1
+                v.violation('C08:outcome:initial-header', 'file with the initial header cut at byte %d of %d: %s' % (x['cut'], len(c['mfile']), i[:80]),
+                            {'file_hex': x['data'].hex()[:8000], 'implementation': i[:300]})
+            continue
+        got = filerun.canon_fr(i)[5]
+        want_n = expected_prefix(full[id(c)], encs, c['mfile'], x['cut'])
+        if got != full[id(c)][:want_n]:
+            bad += 1
+            v.violation('C08:prefix:initial-header', 'file with the initial (all-zero statistics) header, cut at byte %d of %d (level %d, container size %d): delivers %d objects, %d are wholly contained in completely stored containers'
+                        % (x['cut'], len(c['mfile']), c['level'], c['cs'], len(got), want_n),
+                        {'file_hex': x['data'].hex()[:8000], 'cut': x['cut'], 'implementation': i[:600]})
+    checked += ichecked
     for cuts in per_file.values():
         cuts.sort()
         for (k1, n1), (k2, n2) in zip(cuts, cuts[1:]):
@@ -90,8 +134,8 @@ def run(v, tier, seed, replay=None):
         'obligations': info['obligations'], 'discharged': info['discharged'], 'checker_cmd': info['checker_cmd'],
         'trusted_base': TRUSTED + info['print_assumptions'], 'failed_obligations': info['failed'],
         'evaluations': checked, 'distinct_nontrivial': len(set((id(r['of']), r['cut']) for r in res['r'] if r['mode'] == 'trunc' and r['cut'] > 144)),
-        'rule': 'every file of the file-layer run (levels 0-9, container sizes that split objects and object headers, restore points on/off, both header variants are the same bytes here because the model rewrites the header in place) cut at offsets {0,1,3,4,143..145,160,175..177,L-33,L-4,L-2,L-1} plus random offsets (every offset of files up to 700 bytes in thorough); the real reader under a watchdog must throw the library exception or deliver exactly the objects wholly inside completely stored containers (independent container walk), identical to those of the full read, then end; monotone in the offset. Non-trivial = distinct (file, offset beyond the header).',
-        'cuts_checked': checked, 'correspondence_disagreements': ndis, 'oracle_failures': bad,
+        'rule': 'every file of the file-layer run (levels 0-9, container sizes that split objects and object headers, restore points on/off) cut at offsets {0,1,3,4,143..145,160,175..177,L-33,L-4,L-2,L-1} plus random offsets (every offset of files up to 700 bytes in thorough); the real reader under a watchdog must throw the library exception or deliver exactly the objects wholly inside completely stored containers (independent container walk), identical to those of the full read, then end; monotone in the offset; a sample of the files also with the INITIAL header (fileSize, uncompressedFileSize, objectCount, restorePointsOffset zero, as open(out) writes them), uncut and cut. Non-trivial = distinct (file, offset beyond the header).',
+        'cuts_checked': checked, 'initial_header_cuts': ichecked, 'correspondence_disagreements': ndis, 'oracle_failures': bad,
         'theorems': ['C08_cut_structure', 'C08_monotone', 'C08_complete_file', 'C08_stream_prefix', 'C08_stream_prefix_example'],
     })
     v.coverage.update(cov)
